@@ -619,9 +619,11 @@ def r9_9(ctx, rc):
     # second call and recorded as one (R14.5, R8.5): otherwise the rejected
     # call's record competes with the owner's
     from .c08 import r8_5
-    from .c14 import r14_5
+    from .c14 import r14_5, r14_4
     r8_5(ctx, rc)
     r14_5(ctx, rc)
+    # two threads moving the same stale output aside (R14.4)
+    r14_4(ctx, rc)
 
 
 RULES = [
